@@ -138,7 +138,7 @@ theorem rev_of_Rev2Ok {T} {ms : Mid} (hc : Ctx T ms.base) (hI : Inv T ms)
   obtain ⟨hs, hb, hv⟩ := h
   have hl := live_of_base hc hI hs hb
   refine ⟨hl, ?_⟩
-  rw [validateRevision2_eq] at hv
+  rw [validateRevision2_eq_c1] at hv
   obtain ⟨h1, h2⟩ := validateRevision2Core_ok hv
   refine ⟨?_, h2 hfix⟩
   rw [h1]
@@ -220,7 +220,7 @@ theorem ress_sums (l : List Resolution2)
       have e3 : resIn a = rn.newContract.val + rn.newContract.val / 25 + rn.finalRenter.value + rn.finalHost.value := by
         unfold resIn; rw [hres]
       have e4 : resRoll a = rn.renterRollover + rn.hostRollover := by unfold resRoll; rw [hres]
-      rw [e1, e2, e3, e4]; simp only []; cur_omega
+      rw [e1, e2, e3, e4]; simp only []; c1_omega
     | proof p q r s =>
       have e1 : resOut a = 0 := by unfold resOut; rw [hres]
       have e2 : resCost a = 0 := by unfold resCost; rw [hres]
@@ -232,7 +232,7 @@ theorem ress_sums (l : List Resolution2)
       have e2 : resCost a = 0 := by unfold resCost; rw [hres]
       have e3 : resIn a = 0 := by unfold resIn; rw [hres]
       have e4 : resRoll a = 0 := by unfold resRoll; rw [hres]
-      rw [e1, e2, e3, e4]; simp only []; cur_omega
+      rw [e1, e2, e3, e4]; simp only []; c1_omega
 
 theorem v2txn_conserves {T} {ms ms' : Mid} {t : Txn2} {mw : Nat} {R : List (Kind × Id)}
     (hc : Ctx T ms.base) (hfix : ms.base.child ≥ ms.base.P.ephemeralFix) (hI : Inv T ms)
@@ -246,7 +246,7 @@ theorem v2txn_conserves {T} {ms ms' : Mid} {t : Txn2} {mw : Nat} {R : List (Kind
   obtain ⟨hsc, hscn, hbal⟩ := validateV2Siacoins_ok hv1
   obtain ⟨hsf, hsfn, hsfbal⟩ := validateV2Siafunds_ok hv2
   obtain ⟨hfcs, hrevs, hrevn, hress, hresn⟩ := validateV2FileContracts_ok hv3
-  rw [applyV2Transaction_eq] at ha
+  rw [applyV2Transaction_eq_c1] at ha
   rw [bind_eq_ok] at ha; obtain ⟨ms1, a1, ha⟩ := ha
   rw [bind_eq_ok] at ha; obtain ⟨ms2, a2, ha⟩ := ha
   rw [bind_eq_ok] at ha; obtain ⟨ms3, a3, ha⟩ := ha
@@ -369,7 +369,7 @@ theorem v2txn_conserves {T} {ms ms' : Mid} {t : Txn2} {mw : Nat} {R : List (Kind
     unfold Txn2.claims Txn2.forfeits
     rw [e2p, e1p] at e3P
     clear hv hv1 hv2 hv3 a1 a2 a3 a4 a5 a6 a7 hF F1 F2 F3 F4 F5 F6 F7
-    cur_omega
+    c1_omega
   · rw [sfTot_congr f1 f5, e7S, e6S, e5S, hS4]
   · rw [f8, e7p, e6p, e5p, e4p, e3p, e2p, e1p]
     unfold Cur; omega
